@@ -3,7 +3,7 @@
 and /verif/seeded/<id>/ (patch*.diff): apply to /repo, make sure it builds and
 keeps the repository's suite green, run the property's check, revert.
 
-  tools/audit.py [--tier quick|thorough] [--seeds 1,2] [--only C05,C07] [--dir mutants|seeded] [--all-checks]
+  tools/audit.py [--tier quick|thorough] [--seeds 1,2] [--only C05,C07] [--dir mutants|seeded] [--all-checks] [--match patch_c,patch_d] [--tag name]
 
 Writes /verif/notes/audit_<dir>.json; evidence files are clobbered (re-run the
 checks on the clean tree afterwards)."""
@@ -33,7 +33,7 @@ def suite_ok():
 
 def main():
     args = sys.argv[1:]
-    tier, seeds, only, which, allchecks = "quick", [1], None, "mutants", False
+    tier, seeds, only, which, allchecks, match, tag = "quick", [1], None, "mutants", False, None, ""
     i = 0
     while i < len(args):
         if args[i] == "--tier":
@@ -44,6 +44,10 @@ def main():
             only = set(args[i + 1].split(",")); i += 2
         elif args[i] == "--dir":
             which = args[i + 1]; i += 2
+        elif args[i] == "--match":
+            match = args[i + 1].split(","); i += 2
+        elif args[i] == "--tag":
+            tag = "_" + args[i + 1]; i += 2
         elif args[i] == "--all-checks":
             allchecks = True; i += 1
         else:
@@ -59,6 +63,8 @@ def main():
         if only and pid not in only:
             continue
         name = os.path.basename(p)
+        if match and not any(m in name for m in match):
+            continue
         rc, out = sh(["git", "-C", REPO, "apply", p])
         if rc != 0:
             results.append(dict(property=pid, patch=name, status="does-not-apply", detail=out[-300:]))
@@ -91,7 +97,7 @@ def main():
         finally:
             sh(["git", "-C", REPO, "checkout", "--", "."])
     os.makedirs(os.path.join(VERIF, "notes"), exist_ok=True)
-    outp = os.path.join(VERIF, "notes", "audit_%s%s.json" % (which, "_" + "_".join(sorted(only)) if only else ""))
+    outp = os.path.join(VERIF, "notes", "audit_%s%s%s.json" % (which, "_" + "_".join(sorted(only)) if only else "", tag))
     json.dump(results, open(outp, "w"), indent=1)
     n = len([r for r in results if r.get("status") == "ok"])
     c = len([r for r in results if r.get("caught")])
